@@ -695,6 +695,8 @@ def main():
         for name in spec["modules"]:
             out["modules"][name] = observe_module(name, keys, spec)
     else:
+        if spec.get("warmup"):
+            out["core_warmup_calls"] = core_warmup()          # in the warm parent: every forked child inherits the exercised helpers
         for task in spec["tasks"]:
             name, counters = task
             r, w = os.pipe()
